@@ -33,13 +33,20 @@ TRUSTED = [
 
 
 # which monitor verdicts speak about which property (a verdict of another property is that property's check to report)
+# Watchdog verdicts (a call into the library that never returns, see cmd/inflight/watchdog.go): `send-blocked` is C09's
+# ("refused with an error rather than blocked"), `receiver-blocked` is C10's (the frames behind the blocked one are never
+# delivered to their requests; each such frame of the history is also reported as `delivery-failed`) and C16's ("nothing
+# ... deadlocks"), `close-hangs` is C16's; `stalled` = the process deadline expired inside a history (any of the three).
+# `timeout-early` (a request failed with the timeout error although its frames were never timeout/2 apart) is C16's last
+# sentence and C10's "delivers all its pages ... and completes it on the last page".
 KINDS = {
     "C09": {"id-mismatch", "id-out-of-bounds", "duplicate-id", "over-capacity", "accepted-after-close", "header-not-reset", "refused-with-request",
-            "refused-but-registered", "conservation", "managed-flag", "panic", "recycling", "harness", "explicit-id-race"},
+            "refused-but-registered", "conservation", "managed-flag", "panic", "recycling", "harness", "explicit-id-race", "send-blocked", "stalled"},
     "C10": {"misrouted", "unknown-id-result", "delivery-count", "last-not-complete", "early-complete", "delivery-failed", "event-to-request",
-            "wrong-pages", "panic", "harness"},
+            "wrong-pages", "panic", "harness", "receiver-blocked", "timeout-early", "stalled"},
     "C16": {"not-done-after-close", "no-error-after-close", "registered-after-close", "done-vs-closed", "err-without-done", "accepted-after-close",
-            "panic", "goroutine-leak", "close-hangs", "receiver-blocked", "worker-crash", "timeout-missing", "timeout-early", "harness"},
+            "panic", "goroutine-leak", "close-hangs", "receiver-blocked", "send-blocked", "worker-crash", "timeout-missing", "timeout-early", "harness",
+            "stalled"},
 }
 
 
@@ -203,6 +210,14 @@ def standard(run, prop, which, extra_subs=()):
         if rc != 0:
             broken.append("harness inflight hist failed rc=%s: %s" % (rc, err[-600:]))
         results = [r for r in recs if r.get("kind") == "case"]
+        for r in recs:
+            if r.get("kind") != "aborted":
+                continue
+            # the harness's watchdog gave up: after histories in which a call into the library never returned (each of them is a
+            # `case` record with its own verdict) or at the deadline of the whole process (the running history is named here)
+            broken.append("harness inflight hist stopped early (%s): %s" % (r.get("why"), r.get("what") or "%d histories not run" % r.get("skipped", 0)))
+            if r.get("case"):
+                findings.append({"kind": "stalled", "cls": "", "step": r.get("step"), "what": r.get("what", ""), "case": r["case"], "source": "watchdog"})
         for sub in extra_subs:
             rc, recs, err = run_harness(run, sub, run.tier)
             if rc != 0:
